@@ -78,6 +78,7 @@ prop("C05",
 
 prop("C17",
      level="proof",
+     ground=[tables.c17_tables_native_ground],
      assumptions=["asyncio.wait([f], timeout=d) returns as soon as f is done or after d seconds (assumed contract of the library primitive); no scheduler interleavings are explored",
                   "set_config_mode is called only after some config_sleep created the wake-up future (the `assert ConfigChange is not None` in the code is taken as its precondition)",
                   "device-list sizes: 0..6 pump-class devices and 0..1 blower (everything GeckoConstants.DEVICES can produce)"],
@@ -102,7 +103,7 @@ prop("C07",
 
 prop("C20",
      level="proof",
-     ground=[lexical.c20_lexical],
+     ground=[lexical.c20_lexical, tables.c04_regex_bounded],
      bounded=["cleanup_removes_exactly_the_finished: 0..4 registered handlers (list comprehension over a concrete list)", "sends_leave_in_fifo_order_paced: 0..3 queued sends (only the head is touched)"],
      assumptions=["threading.Lock mutual exclusion (ASSUMED); no thread interleavings explored",
                   "NOT decided as a whole: the blocking client completing its handshake against the simulator under every loss pattern within the retry budget (liveness across two engine threads). Proved per step instead: every engine step contains every failure (so the engine survives), each answered handshake step registers and queues exactly the next request with a retry budget (version -> channel -> config -> full block, all shipped table names), the per-datagram reassembly step (shared with C01) and the finishing hook, which never raises however long the handshake takes",
